@@ -123,7 +123,12 @@ func (c *Client) runRaw() {
 			if r != nil {
 				body = string(r.Body)
 			}
-			c.w.recx(Ev{Sess: c.name, Kind: "c-raw-ws-open", S: q, N: st, P: []string{"WS", strconv.Itoa(i), clip(body, 200)}})
+			c.w.recx(Ev{Sess: c.name, Kind: "c-raw-ws-open", S: q, N: st, P: []string{"WS", strconv.Itoa(i), clip(body, 200), func() string {
+				if r != nil {
+					return strconv.Itoa(r.ID)
+				}
+				return ""
+			}()}})
 		case "wt-open":
 			hsBytes := op.Bytes
 			if op.UseSid {
